@@ -128,6 +128,31 @@ def replay_pyvc(task_rec, ob):
 # ---------------------------------------------------------------------------- main check
 
 
+def lean_lemmas():
+    """thorough tier: machine-check the fold lemma library (contracts/lean/Fold.lean) with Lean 4 + Mathlib"""
+    f = os.path.join(HERE, "contracts", "lean", "Fold.lean")
+    sha = hashlib.sha256(open(f, "rb").read()).hexdigest()[:16]
+    cache = os.path.join(EVID, "lean.json")
+    if os.path.exists(cache):
+        try:
+            c = json.load(open(cache))
+            if c.get("sha") == sha and c.get("status") == "ok" and time.time() - c.get("at", 0) < 6 * 3600:
+                return c
+        except Exception:
+            pass
+    t0 = time.time()
+    try:
+        p = subprocess.run(["lean", f], cwd=os.path.dirname(f), capture_output=True, text=True, timeout=1500)
+        out = (p.stdout + p.stderr).strip()
+        st = "ok" if p.returncode == 0 and "error" not in out else "failed"
+    except Exception as e:  # noqa: BLE001
+        out, st = str(e), "failed"
+    c = {"sha": sha, "status": st, "seconds": round(time.time() - t0, 1), "output": out[-800:], "at": time.time(), "theorems": ["LS_prefix", "LS_lin_eq", "LS_lin_mod", "LS_store", "LS_mono", "LS_floor"]}
+    os.makedirs(EVID, exist_ok=True)
+    json.dump(c, open(cache, "w"))
+    return c
+
+
 def slug(s):
     return re.sub(r"[^A-Za-z0-9_.-]+", "_", s)[:100]
 
@@ -213,6 +238,12 @@ def check_property(prop, tier, seed, jobs=12):
             else:
                 undecided.append(f"{o['name']}: {o['status']} {o.get('reason', '')}")
                 undischarged.append({"name": o["name"], "reason": o["status"] + " " + str(o.get("reason", ""))[:200]})
+
+    lean = None
+    if tier == "thorough" and any("fold lemma" in a or "Lean" in a for a in assumptions):
+        lean = lean_lemmas()
+        if lean["status"] != "ok":
+            crashes.append("Lean check of contracts/lean/Fold.lean failed: " + lean.get("output", "")[-300:])
 
     # ---- Tier B
     bres = run_bounded(prop, tier, seed)
@@ -301,6 +332,7 @@ def check_property(prop, tier, seed, jobs=12):
         "exhaustive": False,
         "known_findings": [f"{k} {v['text']}" for k, v in sorted(known_hits.items())],
         "proof_tier_complete": proof_ok,
+        "lemma_library": ({"file": "contracts/lean/Fold.lean", "lean_status": lean["status"], "seconds": lean["seconds"], "theorems": lean["theorems"]} if lean else {"file": "contracts/lean/Fold.lean", "lean_status": "not run in this tier (thorough tier runs Lean 4 + Mathlib on it)"}),
     }
     ev = {
         "property_id": prop,
